@@ -2939,6 +2939,16 @@ class HTTPChannel(basic.LineReceiver, policies.TimeoutMixin):
         """
         self.transport.write(b"HTTP/1.1 100 Continue\r\n\r\n")
 
+    def lineLengthExceeded(self, line):
+        """
+        A request line or header line is longer than L{MAX_LENGTH} allows:
+        answer like any other malformed request.  (Only dropping the
+        connection, as L{LineReceiver} does by default, would let a transport
+        that keeps delivering after the close request - TLS does - resume
+        parsing in the middle of the refused line.)
+        """
+        self._respondToBadRequestAndDisconnect()
+
     def _respondToBadRequestAndDisconnect(self):
         """
         This is a quick and dirty way of responding to bad requests.
